@@ -17,10 +17,10 @@ LEVEL = 'exploration'
 RULE = ('grid enumerated every run: sending = role x target {origin, stream, both, neither} x stream state {idle, open, after 1xx, '
         'after final response, half-closed each way, closed, reserved}; receiving = role x frame stream {0, bound to a stream in '
         'one of 9 progress states incl. after request trailers, never-opened, closed-and-forgotten} x origin {absent, present}; '
-        'random cases add ALTSVC frames at arbitrary points followed by the differential continuation on servers; '
+        'random cases add stream advertisements made right after a refused response attempt and ALTSVC frames at arbitrary points followed by the differential continuation on servers; '
         'non-trivial = table verdict compared; distinct = grid cell')
 MINIMA = {'send_cases_judged': 100, 'receive_cases_judged': 200, 'events_checked': 40, 'server_differential_checked': 300,
-          'ignored_frames_checked': 100, 'repeated_advertisements_checked': 40, 'advertisement_after_response_checked': 20}
+          'ignored_frames_checked': 100, 'repeated_advertisements_checked': 40, 'advertisement_after_response_checked': 20, 'advertisement_after_refused_response_attempt': 40}
 EXHAUSTIVE = {}
 
 SEND_STATES = ['idle-conn', 'idle', 'open', 'after-1xx', 'after-final', 'hc_remote', 'hc_local', 'closed_es', 'closed_rst', 'reserved']
@@ -31,7 +31,7 @@ RECV_GRID = [(role, prog, org) for role in (True, False) for prog in RECV_PROGRE
 
 
 def n_cases(tier):
-    return len(SEND_GRID) + len(RECV_GRID) + (1500 if tier == 'quick' else 150000)
+    return len(SEND_GRID) + len(RECV_GRID) + (4000 if tier == 'quick' else 150000)
 
 
 def run_case(idx, rng, tier, rep):
@@ -42,12 +42,16 @@ def run_case(idx, rng, tier, rep):
         return recv_case(RECV_GRID[idx], rep, rng)
     if rng.random() < 0.3:
         return send_case(rng.choice(SEND_GRID), rep)
+    if rng.random() < 0.25:
+        # a response attempt that is refused sends nothing: the interval for stream advertisements stays open
+        return send_case((False, 'stream', rng.choice(['open', 'hc_remote'])), rep,
+                         noise=rng.choice(['invalid-response', 'value-not-a-string', 'response-without-status', 'invalid-1xx']))
     if rng.random() < 0.5:
         return recv_case(rng.choice(RECV_GRID), rep, rng)
     return server_differential(rng, rep)
 
 
-def send_case(cell, rep):
+def send_case(cell, rep, noise=None):
     e_client, tgt, state = cell
     h = scen.Hostile(e_client, keep_log=True, handshake=(state != 'idle-conn'))
     t = h.t
@@ -78,6 +82,14 @@ def send_case(cell, rep):
         sid = h.reach('closed_rst_sent')
     else:
         sid = h.reach(state)
+    if noise is not None:
+        bad = {'invalid-response': [(b':status', b'200'), (b'te', b'gzip')], 'value-not-a-string': [(b':status', b'200'), (b'content-length', 0)],
+               'response-without-status': [(b'server', b'x')], 'invalid-1xx': [(b':status', b'103'), (b'connection', b'close'), (b'TE', b'x')]}[noise]
+        r0 = t.call('send_headers', sid, bad)
+        if r0.exc is None or r0.frames:
+            rep.count('undetermined:noise-call-accepted')
+            return
+        rep.count('advertisement_after_refused_response_attempt')
     field = b'h2="alt.example.com:443"; ma=3600'
     kw = {}
     if tgt in ('origin', 'both'):
@@ -86,8 +98,8 @@ def send_case(cell, rep):
         kw['stream_id'] = sid
     res = t.call('advertise_alternative_service', field, **kw)
     rep.count('send_cases_judged')
-    rep.nontrivial(('send',) + cell)
-    w = {'cell': ['client' if e_client else 'server', tgt, state], 'log_tail': t.tail_log(3)}
+    rep.nontrivial(('send', noise) + cell)
+    w = {'cell': ['client' if e_client else 'server', tgt, state], 'refused_call_before': noise, 'log_tail': t.tail_log(3)}
     accepted = res.exc is None
     if res.exc is not None and res.frames:
         rep.violation('C24:refused-advertisement-emitted', 'raising call emitted %s' % [f.name for f in res.frames], w)
@@ -201,7 +213,14 @@ def recv_case(cell, rep, rng):
         return
     evs = [e for e in res.events if type(e).__name__ == 'AlternativeServiceAvailable']
     if expect_origin == 'undetermined':
+        # after a 1xx block: whether "response headers" have arrived can be read both ways, so the frame may be ignored or
+        # reported - but a report names the request's :authority, nothing else
         rep.count('undetermined:recv-after-1xx')
+        if res.events:
+            rep.count('events_checked')
+            if len(evs) != 1 or len(res.events) != 1 or evs[0].origin != authority or evs[0].field_value != field:
+                rep.violation('C24:altsvc-event-origin-wrong:%s' % prog, 'events %s, a report must name origin %r' %
+                              ([core.ev_brief(e) for e in res.events], authority), w)
         return
     if expect_origin is None:
         rep.count('ignored_frames_checked')
